@@ -211,6 +211,13 @@ def run_mapping(case, ctx):
     elif op == 'add_nested':
         from .C15 import m_merge, plainify, teq, idsnap, idsnap_same
         o = codec.dec(case['o'])
+        if case.get('ordered_branches'):
+            # some branches of d held as OrderedDicts (trees read from json / yaml loaders): branches like any other, copied not shared
+            import collections
+            for k_ in list(d.keys()):
+                if type(d[k_]) is dict and (len(k_) + case['ordered_branches']) % 2:
+                    dict.__setitem__(d, k_, collections.OrderedDict(d[k_]))
+            ctx.cls('map:add_nested:ordered_branches')
         s_d, s_o = idsnap(d), idsnap(o)
         st, res = ctx.call(lambda: d + o)
         exp = m_merge(plainify(d), plainify(o), [])
@@ -384,7 +391,10 @@ VALS = [0, 1, 'v', None, [1, 2], {'$t': [1]}, 2.5, 'w']
 def gen_map(rng):
     if rng.random() < 0.08:
         from .C15 import gen_tree
-        return {'kind': 'map', 'cls': rng.choice(['Dict', 'MyDict']), 'd': gen_tree(rng, rng.randint(2, 4), 'dict'), 'op': 'add_nested', 'o': gen_tree(rng, rng.randint(1, 4), 'dict')}
+        c_ = {'kind': 'map', 'cls': rng.choice(['Dict', 'MyDict']), 'd': gen_tree(rng, rng.randint(2, 4), 'dict'), 'op': 'add_nested', 'o': gen_tree(rng, rng.randint(1, 4), 'dict')}
+        if rng.random() < 0.3:
+            c_['ordered_branches'] = rng.choice([1, 2])
+        return c_
     ks = rng.sample(KEYS, rng.randint(0, 5))
     d = {k: rng.choice(VALS) for k in ks}
     cls = rng.choice(['dictattr', 'Dict', 'MyAttr', 'MyDict'])
